@@ -1043,6 +1043,11 @@ impl Server {
                                 "DEALLOCATE ALL" | "DISCARD ALL" => {
                                     if let Some(cache) = &mut self.prepared_statement_cache {
                                         cache.clear();
+
+                                        // The ones behind it in the same batch are prepared after it.
+                                        for name in &self.registering_prepared_statement {
+                                            cache.push(name.clone(), ());
+                                        }
                                     }
                                 }
                                 _ => (),
